@@ -296,6 +296,24 @@ func runC16(r *Run, rng *Rng, thorough bool) {
 					}
 				default: // decode (CBOR or JSON), JSON repeated to cover map iteration orders
 					pr := genProbe(rng, names)
+					if rng.Chance(35) {
+						// directed: a document carrying the profile members of two registered profiles at once
+						type nt struct{ name, tag string }
+						cands := []nt{{psa.Profile1Name, "psa-profile"}, {psa.Profile2Name, "eat-profile"}}
+						for _, lp := range registered {
+							if lp.Kind < 5 {
+								cands = append(cands, nt{lp.Name, lenTags[lp.Kind]})
+							}
+						}
+						a, b := Pick(rng, cands), Pick(rng, cands)
+						if a.tag != b.tag {
+							doc := jO(jM(a.tag, jS(a.name)), jM(b.tag, jS(b.name)))
+							if rng.Bool() {
+								doc.Mem = append(doc.Mem, jM("psa-client-id", jI(1)))
+							}
+							pr = c16Probe{json: doc, mentions: []string{a.tag, b.tag}}
+						}
+					}
 					first := pr.run()
 					protos = append(protos, pr.proto())
 					results = append(results, first)
